@@ -144,11 +144,20 @@ func c19r2(c *Ctx) {
 			}
 			blk := f.ObjOf(as.Lhs[0])
 			okv := f.ObjOf(as.Lhs[len(as.Lhs)-1])
-			if blk == nil || blk.Name() == "_" {
+			if blk != nil && blk.Name() == "_" {
 				continue
 			}
 			c.VisitGraph(f)
 			ob := c.Ob(f, "block-used-only-when-found", call.Pos())
+			if blk == nil {
+				// the body is stored straight into a container or field (`blocks[i], _, ok = store.Block(id)`)
+				if okv == nil || okv.Name() == "_" {
+					ob.Bad(nil, "the ok flag of the block lookup at %s is discarded and the block is stored: a pruned (header-only) block is handed on as an empty block instead of an error", c.P.Pos(call.Pos()))
+				} else {
+					ob.OK("stored with its flag kept")
+				}
+				continue
+			}
 			if okv == nil || okv.Name() == "_" {
 				// frozen exception: the walker reads the first reverted block only to refill the pool; a zero block is harmless
 				if f.Base == r.reorgTo {
